@@ -81,6 +81,10 @@ func main() {
 		os.Exit(2)
 	}
 	prop := os.Args[1]
+	if prop == "c03worker" {
+		c03Worker()
+		return
+	}
 	fs := flag.NewFlagSet("harness", flag.ExitOnError)
 	seed := fs.Uint64("seed", 1, "PRNG seed")
 	tier := fs.String("tier", "quick", "quick|thorough")
